@@ -168,6 +168,18 @@ func (b *GoodLbuf) Pop() (*lnode, error) {
 	return n, nil
 }
 
+func (q *GoodL3list) Length() int { return q.n }
+
+func (q *GoodL3list) push(n *lnode) { n.next = q.head; q.head = n; q.n++ }
+
+// Push (good): only the first packet buffered defines where playback starts.
+func (b *GoodLbuf) Push(n *lnode) {
+	if b.state != 1 && b.q.Length() == 0 {
+		b.head = n.seq
+	}
+	b.q.push(n)
+}
+
 type BadLbuf struct {
 	q     *GoodL3list
 	state int
@@ -190,6 +202,16 @@ func (b *BadLbuf) PopBadL2() (*lnode, error) {
 		return nil, err
 	}
 	return n, nil
+}
+
+// PushBadL2: an older packet pulls the head back while the buffer is filling.
+func (b *BadLbuf) PushBadL2(n *lnode) {
+	if b.state != 1 {
+		if behind := b.head - n.seq; b.q.Length() == 0 || behind < 8 {
+			b.head = n.seq
+		}
+	}
+	b.q.push(n)
 }
 
 // ---- J2 ---------------------------------------------------------------------------------------------------------------
